@@ -2,7 +2,7 @@
     the statements of an APPEND, the UID announced by APPENDUID is the UID of
     the row the APPEND inserted. *)
 From Coq Require Import String Ascii List Bool ZArith Lia.
-From Raven Require Import Base.GoStr Model.Store Model.Ops Spec.UidSpec Model.UidView Model.AppendSched.
+From Raven Require Import Base.GoStr Model.Store Model.Ops Spec.UidSpec Model.UidView Model.AppendSched Proof.StoreInv Proof.OpsInv Proof.UidHist.
 Import ListNotations.
 Local Open Scope Z_scope.
 
@@ -266,13 +266,13 @@ Qed.
 (** ---- the theorem ------------------------------------------------------------ *)
 
 Lemma appenduid_all_schedules_l : forall s mb fl e1 e2 e3 e4 s' v u ins,
-  (forall l, In l (links s) -> lk_msg l < next_msg s) ->
+  Inv s ->
   Forall (fun o => writer_ok mb o = true) (e1 ++ e2 ++ e3 ++ e4) ->
   append_sched_full s mb fl e1 e2 e3 e4 = (s', RAppendUid v u, ins) ->
   exists uid g l, ins = Some (uid, g) /\ u = uid /\ In l (links s') /\
                   lk_msg l = next_msg s /\ lk_mbox l = mb /\ lk_uid l = u /\ lk_gid l = g.
 Proof.
-  intros s mb fl e1 e2 e3 e4 s' v u ins I W H.
+  intros s mb fl e1 e2 e3 e4 s' v u ins I0 W H. pose proof (inv_msg s I0) as I.
   apply Forall_app in W. destruct W as [W1 W]. apply Forall_app in W. destruct W as [W2 W].
   apply Forall_app in W. destruct W as [W3 W4].
   unfold append_sched_full, append_sched_gen, store_message in H.
@@ -327,3 +327,42 @@ Proof.
   exists [ODeliver INBOX 0]. vm_compute. do 5 eexists. split; [repeat constructor|].
   split; [reflexivity | discriminate].
 Qed.
+
+(** ... from every state reached by a clean history of a new account *)
+Lemma appenduid_all_schedules_reachable_l : forall t1 t2 t3 t4 t5 h mb fl e1 e2 e3 e4 s' v u ins,
+  clean (init5 t1 t2 t3 t4 t5) h = true ->
+  Forall (fun o => writer_ok mb o = true) (e1 ++ e2 ++ e3 ++ e4) ->
+  append_sched_full (run h (init5 t1 t2 t3 t4 t5)) mb fl e1 e2 e3 e4 = (s', RAppendUid v u, ins) ->
+  exists uid g l, ins = Some (uid, g) /\ u = uid /\ In l (links s') /\
+                  lk_msg l = next_msg (run h (init5 t1 t2 t3 t4 t5)) /\ lk_mbox l = mb /\ lk_uid l = u /\ lk_gid l = g.
+Proof.
+  intros t1 t2 t3 t4 t5 h mb fl e1 e2 e3 e4 s' v u ins C. apply appenduid_all_schedules_l.
+  now apply inv_reachable_l.
+Qed.
+
+(** every stamp handed out by CreateMailboxPerUser is above every UIDVALIDITY the
+    store has ever used, whatever the clock says *)
+Lemma new_validity_above_all_l : forall s n t s' id n' v',
+  create_mailbox_row s n t = Some (s', id) -> In (n', v') (gused s) ->
+  exists m, In m (mboxes s') /\ mb_id m = id /\ mb_name m = n /\ v' < mb_validity m /\ t <= mb_validity m.
+Proof.
+  intros s n t s' id n' v' C H. apply create_row_shape in C. destruct C as (_ & _ & ->).
+  exists (mkMbox id n (next_validity s t) 1). simpl. repeat split.
+  - apply in_or_app. right. now left.
+  - apply (in_map snd) in H. simpl in H. apply fold_max_ge in H. unfold next_validity, vhigh. lia.
+  - unfold next_validity. lia.
+Qed.
+
+(** a reachable, non-trivial state and a schedule with three other writers: the
+    premises are satisfiable and the conclusion is what is computed *)
+Definition ex_hist : list op :=
+  [OAppend (S_ "Trash") []; OAppend (S_ "Trash") [S_ "\Seen"]; OAppend INBOX []; ODeliver INBOX 0;
+   OUidCopy 4 [UOne 1] INBOX; OCreate (S_ "A") 100; ODelete (S_ "A"); OCreate (S_ "A") 100;
+   OUidStore 1 [UOne 1] SAdd [S_ "\Deleted"]; OExpunge 1].
+Lemma reachable_schedule_example :
+  clean (init 100) ex_hist = true /\
+  exists s' v g,
+    append_sched_full (run ex_hist (init 100)) 1 []
+       [ODeliver INBOX 0] [OAppend INBOX []] [OUidCopy 4 [UOne 2] INBOX] [OUidStore 4 [UOne 1] SAdd [NONJUNK]]
+    = (s', RAppendUid v 5, Some (5, g)) /\ length (links_in s' 1) = 7%nat.
+Proof. split; [vm_compute; reflexivity|]. vm_compute. do 3 eexists. split; reflexivity. Qed.
